@@ -30,6 +30,7 @@ func mkPool(bin, bout sdkmath.Int, win, wout int64, fee sdkmath.LegacyDec) ammty
 }
 
 // O1 (equal weights): out <= Bout*a/(Bin+a) + 1 with a = in*(1-fee).
+//
 //vrf:bound weights 1:1; Bout <= 1e18; Bin, in unbounded positive; fee in [0, 2%]
 //vrf:cover o1-swap-ok
 func H_O1_CalcOutGivenIn_1to1() {
@@ -88,6 +89,7 @@ func o1Weighted(win, wout int64) {
 }
 
 // O1 for integer weight ratios 2:1, 3:1, 4:1 (Pow takes the integer Power branch).
+//
 //vrf:cover swap-ok
 //vrf:bound weights 2:1; Bout <= 1e17
 //vrf:summary-opt github.com/elys-network/elys/x/amm/types.powerApproximation => sumPowApprox
@@ -107,6 +109,7 @@ func H_O1_CalcOutGivenIn_4to1() { o1Weighted(4, 1) }
 
 // O2 (exact-out, equal weights): the charged input is at least the exact formula minus one unit:
 // (in+1)*(1-fee)*(Bout-out) >= Bin*out.
+//
 //vrf:cover swap-ok
 //vrf:bound weights 1:1; Bin <= 1e18; Bout, out unbounded; fee in [0, 2%]
 func H_O2_CalcInGivenOut_1to1() {
@@ -133,6 +136,7 @@ func H_O2_CalcInGivenOut_1to1() {
 
 // O3 (split trade, zero fee, equal weights): two consecutive exact-in swaps against the updated
 // reserves pay at most what the exact formula gives for the whole amount, plus the allowance.
+//
 //vrf:cover swap-ok
 //vrf:bound weights 1:1; zero fee; Bout <= 1e18; two pieces
 //vrf:assert-ms 120000
@@ -163,6 +167,7 @@ func H_O3_Split_1to1() {
 }
 
 // O4 (round trip A->B->A, zero fee, equal weights) returns at most the input plus one unit.
+//
 //vrf:cover swap-ok
 //vrf:bound weights 1:1; zero fee; Bin+in <= 1e18, Bout <= 1e18
 //vrf:assert-ms 120000
@@ -221,6 +226,7 @@ func sumWBF(a, b, c, d, e, f, g sdkmath.LegacyDec, params ammtypes.Params) sdkma
 
 // O5 exact-in: what the oracle pool pays out is never worth more, at oracle prices, than what is paid in
 // (up to one base unit of the output token): out*pOut <= in*pIn + pOut.
+//
 //vrf:summary (*github.com/elys-network/elys/x/amm/types.Pool).CalcGivenInSlippage => sumSlippageIn
 //vrf:summary github.com/elys-network/elys/x/amm/types.GetWeightBreakingFee => sumWBF
 //vrf:cover swap-ok
@@ -313,6 +319,7 @@ func o2Weighted(win, wout int64) {
 }
 
 // O2 for weight ratios 1:2 (the bought asset is the heavier one; Pow takes the integer Power branch)
+//
 //vrf:cover swap-ok
 //vrf:bound weights 1:2; Bin <= 1e17; Bout, out unbounded; fee in [0, 2%]
 //vrf:summary-opt github.com/elys-network/elys/x/amm/types.powerApproximation => sumPowApprox
@@ -325,3 +332,25 @@ func H_O2_CalcInGivenOut_1to2() { o2Weighted(1, 2) }
 //vrf:summary-opt github.com/elys-network/elys/x/amm/types.powerApproximation => sumPowApprox
 //vrf:assert-ms 120000
 func H_O2_CalcInGivenOut_1to3() { o2Weighted(1, 3) }
+
+// ---- the contract of CalcGivenInSlippage used by O5 is what the real function delivers ----
+
+// contract of Pool.CalcOutAmtGivenIn (the balancer output with oracle weights: fractional exponents): any positive amount
+func sumBalancerOut(p ammtypes.Pool, ctx sdk.Context, o ammtypes.OracleKeeper, snap *ammtypes.Pool, tokensIn sdk.Coins, outDenom string, fee sdkmath.LegacyDec, acc ammtypes.AccountedPoolKeeper) (sdk.Coin, sdkmath.LegacyDec, error) {
+	out := vrf.Int("balancerOut")
+	vrf.Assume(out.IsPositive())
+	return sdk.Coin{Denom: outDenom, Amount: out}, sdkmath.LegacyZeroDec(), nil
+}
+
+// O5 once more with the slippage computed by the real CalcGivenInSlippage from a havocked balancer output (which may
+// exceed the oracle value when the start-of-block snapshot weights lag behind the reserves): wherever the code clamps
+// a negative slippage, what the pool pays out is never worth more than what is paid in.
+//
+//vrf:summary (github.com/elys-network/elys/x/amm/types.Pool).CalcOutAmtGivenIn => sumBalancerOut
+//vrf:summary github.com/elys-network/elys/x/amm/types.GetWeightBreakingFee => sumWBF
+//vrf:cover swap-ok
+//vrf:bound as O5; the balancer output is havocked > 0 instead of the slippage amount
+//vrf:assert-ms 120000
+//vrf:full-feas-ms 2000
+//vrf:max-paths 3000
+func H_O5_OracleSwap_ExactIn_BalancerHavocked() { H_O5_OracleSwap_ExactIn() }
